@@ -63,6 +63,9 @@ type c11Event struct {
 }
 
 func (e c11Event) String() string {
+	if e.Kind == "flood" {
+		return "flood(10001 fresh clients)"
+	}
 	if e.Kind == "adv" {
 		if e.AdvDen == 0 {
 			return fmt.Sprintf("adv(%s)", time.Duration(e.AdvNum))
@@ -87,6 +90,15 @@ func c11Alphabet(cfg c11Config) []c11Event {
 		{Kind: "adv", AdvNum: 10, AdvDen: 1},
 		{Kind: "adv", AdvNum: int64(11 * time.Minute)},
 	}
+	if cfg.Proxy == "flood" {
+		// table-capacity sub-exploration: a flood of 10001 fresh clients is one event
+		return []c11Event{
+			{Kind: "req", From: ipA},
+			{Kind: "flood"},
+			{Kind: "adv", AdvNum: 1, AdvDen: 2},
+			{Kind: "adv", AdvNum: int64(6 * time.Minute)},
+		}
+	}
 	if cfg.Proxy != "" {
 		ev = append(ev, c11Event{Kind: "req", From: ipProxy, XFF: ipA})
 	}
@@ -108,6 +120,10 @@ func c11Client(cfg c11Config, e c11Event) string {
 			return e.XFF
 		}
 		return e.From
+	case "trust-bad", "flood":
+		// trust-bad: a trusted-proxy list is configured but names no peer of
+		// this history (CIDR / hostname / bracketed spellings): nobody is trusted
+		return e.From
 	}
 	panic(cfg.Proxy)
 }
@@ -119,14 +135,15 @@ type c11Bucket struct {
 }
 
 type c11Sys struct {
-	judgeN  int // oracle parameters (declared limit unless judging the CLI's converted budget)
-	cfg     c11Config
-	h       server.RouteHandler
-	marker  int
-	now     int64
-	window  int64
-	buckets map[string]*c11Bucket
-	resp    []string // "client:status" per request, for the isolation comparison
+	judgeN   int // oracle parameters (declared limit unless judging the CLI's converted budget)
+	cfg      c11Config
+	h        server.RouteHandler
+	marker   int
+	now      int64
+	window   int64
+	buckets  map[string]*c11Bucket
+	resp     []string // "client:status" per request, for the isolation comparison
+	floodSeq int
 }
 
 // c11Converted is the per-minute budget the CLI derives from a declaration
@@ -156,12 +173,15 @@ func newC11SysJudged(cfg c11Config, asConverted bool) *c11Sys {
 		mw = rateLimitMiddleware(&ast.RateLimit{Requests: uint32(cfg.N), Window: cfg.Unit})
 	} else {
 		// library middleware: per-minute configuration only
-		if cfg.Proxy == "trust-set" {
+		switch cfg.Proxy {
+		case "trust-set":
 			server.SetTrustedProxies([]string{ipProxy})
-		} else {
+		case "trust-bad":
+			server.SetTrustedProxies([]string{"10.9.9.0/24", "proxy.internal", "[::1]"})
+		default:
 			server.SetTrustedProxies(nil)
 		}
-		mw = server.RateLimitMiddleware(server.RateLimiterConfig{RequestsPerMinute: cfg.N, BurstSize: cfg.N, TrustProxy: true})
+		mw = server.RateLimitMiddleware(server.RateLimiterConfig{RequestsPerMinute: cfg.N, BurstSize: cfg.N, TrustProxy: cfg.Proxy != "flood"})
 	}
 	s.h = mw(func(ctx *server.Context) error { s.marker++; return nil })
 	return s
@@ -189,6 +209,17 @@ func (s *c11Sys) apply(e c11Event) string {
 		}
 		vrt.AdvanceCoalesced(time.Duration(d), 3)
 		s.now += d
+		return ""
+	}
+	if e.Kind == "flood" {
+		// each fresh client is within its rate: all must be admitted
+		for i := 0; i < 10001; i++ {
+			s.floodSeq++
+			ip := fmt.Sprintf("11.%d.%d.%d", s.floodSeq>>16&255, s.floodSeq>>8&255, s.floodSeq&255)
+			if st, _ := s.request(c11Event{Kind: "req", From: ip}); st == 429 {
+				return fmt.Sprintf("fresh client %s stayed within %s but got 429", ip, s.cfg)
+			}
+		}
 		return ""
 	}
 	cl := c11Client(s.cfg, e)
@@ -289,7 +320,7 @@ func c11Run(cfg c11Config, events []c11Event) (failAt int, fail string, resp []s
 
 func c11RunJudged(cfg c11Config, events []c11Event, asConverted bool) (failAt int, fail string, resp []string) {
 	failAt = -1
-	x := vrt.RunOnce(vrt.Config{NoAutoTimers: true}, nil, func() {
+	x := vrt.RunOnce(vrt.Config{NoAutoTimers: true, MaxSteps: 5000000}, nil, func() {
 		s := newC11SysJudged(cfg, asConverted)
 		for i, e := range events {
 			if f := s.apply(e); f != "" {
@@ -377,15 +408,24 @@ func TestVerif_C11(t *testing.T) {
 		}
 	}
 	for _, n := range ns[:2] {
-		cfgs = append(cfgs, c11Config{N: n, Unit: "min", Proxy: "trust-all"}, c11Config{N: n, Unit: "min", Proxy: "trust-set"})
+		cfgs = append(cfgs, c11Config{N: n, Unit: "min", Proxy: "trust-all"}, c11Config{N: n, Unit: "min", Proxy: "trust-set"},
+			c11Config{N: n, Unit: "min", Proxy: "trust-bad"})
 	}
+	cfgs = append([]c11Config{{N: 1, Unit: "min", Proxy: "flood"}, {N: 2, Unit: "min", Proxy: "flood"}}, cfgs...)
 	res.Bounds["history_depth"] = depth
 	res.Bounds["configurations"] = len(cfgs)
+	c11Schedules(p, res)
 	// work items: (config, first event) so that 16 shards stay busy
 	item := 0
 	for _, cfg := range cfgs {
 		alpha := c11Alphabet(cfg)
-		res.Bounds["alphabet_size"] = len(alpha)
+		depth := depth
+		if cfg.Proxy == "flood" {
+			depth = 4
+			res.Bounds["flood_history_depth"] = depth
+		} else {
+			res.Bounds["alphabet_size"] = len(alpha)
+		}
 		for first := range alpha {
 			item++
 			if !p.Mine(item) {
@@ -438,7 +478,7 @@ func TestVerif_C11(t *testing.T) {
 				var ha []c11Event
 				dropped := false
 				for _, e := range h {
-					if e.Kind == "req" && c11Client(cfg, e) != ipA {
+					if (e.Kind == "req" && c11Client(cfg, e) != ipA) || e.Kind == "flood" {
 						dropped = true
 						continue
 					}
@@ -466,7 +506,6 @@ func TestVerif_C11(t *testing.T) {
 			rec([]c11Event{alpha[first]})
 		}
 	}
-	c11Schedules(p, res)
 	res.Write(p)
 }
 
